@@ -144,13 +144,17 @@ func main() {
 		if len(os.Args) < 4 {
 			os.Exit(2)
 		}
-		os.Exit(replayOne(id, bin, os.Args[3], known))
+		rc := replayOne(id, bin, os.Args[3], known)
+		cleanScratch()
+		os.Exit(rc)
 	}
 	if mode != "quick" && mode != "thorough" {
 		fmt.Fprintln(os.Stderr, "mode must be quick or thorough")
 		os.Exit(2)
 	}
-	os.Exit(runTier(id, cfg, bin, mode, known, start))
+	rc := runTier(id, cfg, bin, mode, known, start)
+	cleanScratch()
+	os.Exit(rc)
 }
 
 // build compiles the property's test binary against /repo's current working tree.
@@ -253,14 +257,33 @@ func baseEnv(id, tier string, seed int64, outDir string, known Known, extra map[
 	return env
 }
 
+var runScratch string
+
+// scratchRoot returns a scratch directory private to this supervisor run (removed at the end).
 func scratchRoot() string {
-	if d := os.Getenv("VERIF_SCRATCH"); d != "" {
-		return d
+	if runScratch != "" {
+		return runScratch
 	}
-	if st, err := os.Stat("/dev/shm"); err == nil && st.IsDir() {
-		return "/dev/shm"
+	base := os.Getenv("VERIF_SCRATCH")
+	if base == "" {
+		if st, err := os.Stat("/dev/shm"); err == nil && st.IsDir() {
+			base = "/dev/shm"
+		} else {
+			base = os.TempDir()
+		}
 	}
-	return os.TempDir()
+	d, err := os.MkdirTemp(base, "verif-run-")
+	if err != nil {
+		return base
+	}
+	runScratch = d
+	return d
+}
+
+func cleanScratch() {
+	if runScratch != "" {
+		_ = os.RemoveAll(runScratch)
+	}
 }
 
 func runTier(id string, cfg PropCfg, bin, tier string, known Known, start time.Time) int {
